@@ -41,6 +41,21 @@ var versions = []string{band.LoRaWAN_1_0_0, band.LoRaWAN_1_0_1, band.LoRaWAN_1_0
 var revisions = []string{band.RegParamRevA, band.RegParamRevB, band.RegParamRevC, band.RegParamRevRP002_1_0_0, band.RegParamRevRP002_1_0_1,
 	band.RegParamRevRP002_1_0_2, band.RegParamRevRP002_1_0_3, "latest", "ZZ-unknown"}
 
+var knownVersions = []string{band.LoRaWAN_1_0_0, band.LoRaWAN_1_0_1, band.LoRaWAN_1_0_2, band.LoRaWAN_1_0_3, band.LoRaWAN_1_0_4, band.LoRaWAN_1_1_0, "latest"}
+var knownRevisions = []string{band.RegParamRevA, band.RegParamRevB, band.RegParamRevC, band.RegParamRevRP002_1_0_0, band.RegParamRevRP002_1_0_1,
+	band.RegParamRevRP002_1_0_2, band.RegParamRevRP002_1_0_3, "latest"}
+var verNeighbours, revNeighbours = map[string][]string{}, map[string][]string{}
+
+func init() {
+	all := append(append([]string{}, knownVersions...), knownRevisions...)
+	for _, v := range knownVersions {
+		verNeighbours[v] = bandcfg.StringNeighbours(v, all)
+	}
+	for _, v := range knownRevisions {
+		revNeighbours[v] = bandcfg.StringNeighbours(v, all)
+	}
+}
+
 func main() {
 	dir, seed, thorough := cases.Args()
 	r := cq.NewRNG(seed)
@@ -65,8 +80,8 @@ func main() {
 			size = "panic"
 		}
 		s.Add(cases.Case{
-			Term: fmt.Sprintf("CMaxPl %d %s %s %s %s", c.Index, str(ver), str(rev), cq.Z(int64(dr)), o),
-			Key:  fmt.Sprintf("maxpl:%s:ver=%s:rev=%s:dr=%d:size=%s", c.Key(), ver, rev, dr, size), Kind: kind,
+			Term: fmt.Sprintf("CMaxPl %d %s %s %s %s", c.Index, bandcfg.StrTerm(ver), bandcfg.StrTerm(rev), cq.Z(int64(dr)), o),
+			Key:  fmt.Sprintf("maxpl:%s:ver=%s:rev=%s:dr=%d:size=%s", c.Key(), bandcfg.KeyStr(ver), bandcfg.KeyStr(rev), dr, size), Kind: kind,
 			Nontrivial: size != "err",
 			Replay: map[string]interface{}{"api": "band.GetConfig(name, repeater, dwell).GetMaxPayloadSizeForDataRateIndex(version, revision, dr)",
 				"name": string(c.Name), "repeater": c.Repeater, "dwell400ms": c.Dwell, "version": ver, "revision": rev, "dr": dr, "observed_M/N": size}})
@@ -196,6 +211,64 @@ func main() {
 			maxpl(c, b, "", "", dr, "maxpl-dr-out-of-range")
 		}
 		maxpl(c, b, "", "", 0, "maxpl")
+		if !c.Alias && (!c.Repeater && !c.Dwell || thorough) {
+			// structured neighbours of the known version / revision constants ("1.0.2B", "1.0.2 ", "01.0.2",
+			// "1.0.3.1", "+1.1.0", "rp002-1.0.3", "RP002-1.0.03", ...): all of them are UNKNOWN strings and must
+			// resolve like "latest" - never like the constant they resemble
+			// per constant: the (other argument, DR) cells of THIS band where the constant and an unknown
+			// string give different answers - there a neighbour taken for the constant is visible
+			raw := func(ver, rev string, dr int) string {
+				ps, err := b.GetMaxPayloadSizeForDataRateIndex(ver, rev, dr)
+				if err != nil {
+					return "err"
+				}
+				return fmt.Sprintf("%d/%d", ps.M, ps.N)
+			}
+			type cell struct {
+				other string
+				dr    int
+			}
+			pick := func(constant string, isVersion bool) []cell {
+				var out []cell
+				others := revisions // the other argument: a revision for a version constant ...
+				if !isVersion {
+					others = versions // ... and a version for a revision constant
+				}
+				for _, o := range others {
+					for dr := 0; dr <= 15 && len(out) < 2; dr++ {
+						var k, u string
+						if isVersion {
+							k, u = raw(constant, o, dr), raw("\x01no-such-version", o, dr)
+						} else {
+							k, u = raw(o, constant, dr), raw(o, "\x01no-such-revision", dr)
+						}
+						if k != u && (len(out) == 0 || out[0].other != o) {
+							out = append(out, cell{o, dr})
+						}
+					}
+				}
+				if len(out) == 0 && c.Name == band.EU868 {
+					out = []cell{{others[0], 0}}
+				}
+				return out
+			}
+			for _, k := range knownVersions {
+				cells := pick(k, true)
+				for _, n := range verNeighbours[k] {
+					for _, ce := range cells {
+						maxpl(c, b, n, ce.other, ce.dr, "maxpl-string-neighbour")
+					}
+				}
+			}
+			for _, k := range knownRevisions {
+				cells := pick(k, false)
+				for _, n := range revNeighbours[k] {
+					for _, ce := range cells {
+						maxpl(c, b, ce.other, n, ce.dr, "maxpl-string-neighbour")
+					}
+				}
+			}
+		}
 		maxpl(c, b, "1.0.2", "a", 3, "maxpl")
 		maxpl(c, b, "LATEST", "latest ", 3, "maxpl")
 
